@@ -92,6 +92,9 @@ pub struct Board {
     /// expected periodic pixel pattern (period, bytes) of the data phase, and the first offset that deviates
     pub spi_expect: Option<(usize, [u8; 3])>,
     pub spi_mismatch: Option<u64>,
+    /// armed: when the next memory-write-start command byte (0x2C with DC low) has been delivered, switch to counting
+    /// mode with this expected pixel pattern (display-level fills of more than 2^32 bytes)
+    pub arm_on_ramwr: Option<(usize, [u8; 3])>,
 }
 
 pub type Bd = Rc<RefCell<Board>>;
@@ -117,6 +120,7 @@ impl Board {
             spi_txns: 0,
             spi_expect: None,
             spi_mismatch: None,
+            arm_on_ramwr: None,
         }))
     }
 
@@ -253,10 +257,26 @@ impl SpiDevice<u8> for VSpi {
         for o in operations.iter() {
             match o {
                 Operation::Write(buf) => {
+                    if ok && b.arm_on_ramwr.is_some() && !dc && buf.len() == 1 && buf[0] == 0x2C {
+                        let off = b.bytes.len() as u32;
+                        b.bytes.push(0x2C);
+                        b.evs.push(Ev::SpiWrite { dc, ok, off, len: 1, first });
+                        b.spi_expect = b.arm_on_ramwr.take();
+                        b.count_only = true;
+                        b.spi_bytes = 0;
+                        b.spi_txns = 0;
+                        b.spi_mismatch = None;
+                        first = false;
+                        continue;
+                    }
                     if ok {
                         if let Some((n, pat)) = b.spi_expect {
                             // the delivered bytes must continue the periodic pixel pattern
-                            if b.spi_mismatch.is_none() {
+                            if b.spi_mismatch.is_none() && pat[..n].iter().all(|x| *x == pat[0]) {
+                                if let Some(i) = buf.iter().position(|x| *x != pat[0]) {
+                                    b.spi_mismatch = Some(b.spi_bytes + i as u64);
+                                }
+                            } else if b.spi_mismatch.is_none() {
                                 let mut ph = (b.spi_bytes % n as u64) as usize;
                                 for (i, &x) in buf.iter().enumerate() {
                                     if x != pat[ph] {
